@@ -394,4 +394,185 @@ theorem pairs_leaf_level (t : RawTree) (l : Level) (n : Node) (hl : t.leafLevel 
 
 example : exTree.leafLevel = some 2 ∧ exTree.leafPairs (some (2, 31)) = [] := by decide
 
+/-! ### flatten, drop_level -/
+
+/-- *"Flattening … preserve[s] the leaf set and each leaf's ancestor at every
+remaining level"*: `flatten()` of a well-formed tree is again well formed (so
+the constructor's validation passes), its only level is the leaf level, whose
+dict (leaf names, their order, their rows) is untouched; the only remaining
+level is the leaf level itself, where every leaf is its own ancestor before and
+after; and `as_leaves` of a leaf is the leaf. -/
+theorem flatten_preserves (t : RawTree) (w : WF t) :
+    WF t.flatten ∧
+    t.flatten.hierarchy = [t.hierarchy.getLast w.hNe] ∧
+    t.flatten.level (t.hierarchy.getLast w.hNe) = t.level (t.hierarchy.getLast w.hNe) ∧
+    t.flatten.allRows = t.allRows ∧
+    (∀ n, t.flatten.ancestorAt (t.hierarchy.getLast w.hNe) n (t.hierarchy.getLast w.hNe) =
+        t.ancestorAt (t.hierarchy.getLast w.hNe) n (t.hierarchy.getLast w.hNe)) ∧
+    (∀ n, t.flatten.asLeaves (t.hierarchy.getLast w.hNe) n = [n]) := by
+  have hl := w.leafLevel_getLast
+  exact ⟨flatten_wf w, flatten_hierarchy hl, flatten_level_leaf w.hNodup hl,
+    flatten_allRows w.hNodup, fun n => by rw [ancestorAt_self, ancestorAt_self],
+    fun n => flatten_asLeaves hl n⟩
+
+example : exTree.flatten = ⟨true, [2],
+    [(2, [(30, [0]), (31, [1, 2]), (32, []), (33, [4, 3])])], true⟩ := by decide
+
+/-- *"dropping any level … preserve[s] the leaf set and each leaf's ancestor at
+every remaining level"*: for a well-formed tree with at least two levels and
+any non-leaf level `h[i]`, `drop_level(h[i])` succeeds — in particular the
+re-validation in the constructor of the new tree never fails —, the result is
+well formed, its hierarchy is the old one without `h[i]`, the leaf level's dict
+(leaf names, order, rows) is untouched, and every leaf has the same ancestor as
+before at every remaining level. -/
+theorem drop_preserves (t : RawTree) (w : WF t) {i : Nat} (hi : i + 1 < t.hierarchy.length)
+    (allowLeaf : Bool) :
+    ∃ t', t.dropLevel (t.hierarchy[i]'(by omega)) allowLeaf = .ok t' ∧
+      WF t' ∧
+      t'.hierarchy = t.hierarchy.eraseIdx i ∧
+      t'.level (t.hierarchy.getLast w.hNe) = t.level (t.hierarchy.getLast w.hNe) ∧
+      t'.allRows = t.allRows ∧
+      (∀ n, n ∈ t.nodesAt (t.hierarchy.getLast w.hNe) → ∀ l, l ∈ t'.hierarchy →
+        t'.ancestorAt (t.hierarchy.getLast w.hNe) n l =
+          t.ancestorAt (t.hierarchy.getLast w.hNe) n l) ∧
+      (∀ l, l ∈ t'.hierarchy → ∀ n, (t'.asLeaves l n).Perm (t.asLeaves l n)) := by
+  have hi' : i < t.hierarchy.length := by omega
+  obtain ⟨t', hd, hraw, w'⟩ := dropLevel_eq_ok w hi' (by omega) (allowLeaf := allowLeaf) (Or.inr hi)
+  have hh := drop_hierarchy w.hNodup hi' hraw
+  refine ⟨t', hd, w', hh, ?_, drop_allRows_nonleaf w.hNodup hi' hraw hi, ?_, ?_⟩
+  · have := drop_level_leaf w.hNodup hi' hraw hi
+    rw [List.getLast_eq_getElem]
+    exact this
+  · intro n hn l hl
+    exact drop_ancestorAt w hi' hi hraw w.leafLevel_getLast hn hl
+  · intro l hl n
+    rw [hh] at hl
+    have hlt : l ∈ t.hierarchy := (List.eraseIdx_sublist _ _).subset hl
+    obtain ⟨j, hj, rfl⟩ := List.mem_iff_getElem.1 hlt
+    have hji : j ≠ i := by
+      rintro rfl
+      rw [List.mem_eraseIdx_iff_getElem] at hl
+      obtain ⟨k, hk, hki, hke⟩ := hl
+      exact hki ((List.getElem_inj w.hNodup).1 hke)
+    exact drop_asLeaves w.hNodup hi' hraw hi hj hji n
+
+example : exTree.dropLevel 1 = .ok ⟨true, [0, 2],
+      [(0, [(10, [31, 32, 30]), (11, [33])]),
+       (2, [(30, [0]), (31, [1, 2]), (32, []), (33, [4, 3])])], true⟩ ∧
+    exTree.dropLevel 0 = .ok ⟨true, [1, 2],
+      [(1, [(21, [31, 32]), (20, [30]), (22, [33])]),
+       (2, [(30, [0]), (31, [1, 2]), (32, []), (33, [4, 3])])], true⟩ := by decide
+
+/-- `drop_leaf_level()`: the parents of the leaves become the leaves. The
+result is well formed, every other level's dict is untouched, the new leaves
+are the nodes of the old last-but-one level, each owning the rows of its former
+children, and no row is lost or duplicated. -/
+theorem drop_leaf_preserves (t : RawTree) (w : WF t) (h2 : 2 ≤ t.hierarchy.length) :
+    ∃ t', t.dropLevel (t.hierarchy.getLast w.hNe) true = .ok t' ∧
+      WF t' ∧
+      t'.hierarchy = t.hierarchy.dropLast ∧
+      (∀ j (hj : j + 2 < t.hierarchy.length),
+        t'.level (t.hierarchy[j]'(by omega)) = t.level (t.hierarchy[j]'(by omega))) ∧
+      t'.nodesAt (t.hierarchy[t.hierarchy.length - 2]'(by omega)) =
+        t.nodesAt (t.hierarchy[t.hierarchy.length - 2]'(by omega)) ∧
+      (∀ p, t'.entry (t.hierarchy[t.hierarchy.length - 2]'(by omega)) p =
+        (t.entry (t.hierarchy[t.hierarchy.length - 2]'(by omega)) p).flatMap
+          (t.entry (t.hierarchy.getLast w.hNe))) ∧
+      t'.allRows.Perm t.allRows := by
+  have hlast : t.hierarchy.getLast w.hNe = t.hierarchy[t.hierarchy.length - 1]'(by omega) :=
+    List.getLast_eq_getElem _
+  have hi : t.hierarchy.length - 1 < t.hierarchy.length := by omega
+  obtain ⟨t', hd, hraw, w'⟩ := dropLevel_eq_ok w hi h2 (allowLeaf := true) (Or.inl rfl)
+  have s := strict_of_validate w.valid
+  refine ⟨t', by rw [hlast]; exact hd, w', ?_, ?_, ?_, ?_, drop_allRows_perm s w.dict w.hNodup hi hraw⟩
+  · rw [drop_hierarchy w.hNodup hi hraw, List.dropLast_eq_take, List.eraseIdx_eq_take_drop_succ]
+    rw [List.drop_eq_nil_of_le (by omega), List.append_nil]
+  · intro j hj
+    apply drop_level_other w.hNodup hi hraw
+    · intro e; have := (List.getElem_inj w.hNodup).1 e; omega
+    · intro h0 e; have := (List.getElem_inj w.hNodup).1 e; omega
+  · apply drop_nodesAt w.hNodup hi hraw
+    intro e; have := (List.getElem_inj w.hNodup).1 e; omega
+  · intro p
+    have h0 : 0 < t.hierarchy.length - 1 := by omega
+    have := drop_entry_parent w.hNodup hi hraw h0 p
+    simp only [hlast]
+    have e : t.hierarchy.length - 1 - 1 = t.hierarchy.length - 2 := by omega
+    simp only [e] at this
+    exact this
+
+example : exTree.dropLevel 2 true = .ok ⟨true, [0, 1],
+      [(1, [(21, [1, 2]), (20, [0]), (22, [4, 3])]),
+       (0, [(10, [21, 20]), (11, [22])])], true⟩ := by decide
+
+/-- the refusals of `_drop_level`, in the order the code tests them -/
+theorem drop_refusals (t : RawTree) (l : Level) (allowLeaf : Bool) :
+    (t.hierarchy.length = 1 → t.dropLevel l allowLeaf = .error .flatTree) ∧
+    (t.hierarchy.length ≠ 1 → l ∉ t.hierarchy → t.dropLevel l allowLeaf = .error .levelNotInTree) ∧
+    (t.hierarchy.length ≠ 1 → l ∈ t.hierarchy → t.leafLevel = some l →
+      t.dropLevel l false = .error .isLeafLevel) := by
+  refine ⟨fun h => ?_, fun h hl => ?_, fun h hl hll => ?_⟩
+  · simp [dropLevel, dropLevelRaw_flat h]
+  · simp [dropLevel, dropLevelRaw_not_in h hl]
+  · simp [dropLevel, dropLevelRaw_leaf h hl hll]
+
+example : exTree.dropLevel 2 = .error .isLeafLevel ∧ exTree.dropLevel 9 = .error .levelNotInTree ∧
+    exTree.flatten.dropLevel 2 = .error .flatTree := by decide
+
+/-! ### building the tree from per-cell label columns -/
+
+/-- *"building it from per-cell label columns reproduces exactly the label
+combinations present"*.  `cols` = the column hierarchy (distinct names, at
+least one), `recs` = one list of labels per cell, one label per column.
+`get_taxonomy_tree` accepts the records iff the label columns are functionally
+nested (cells with the same child label have the same parent label); the tree
+it returns is well formed, its levels are the columns, the nodes of a level are
+the labels occurring in that column, `c` is a child of `p` iff some cell
+carries `p` and `c` in adjacent columns, the rows of a leaf are exactly the
+indices of the cells carrying that leaf label, and the root-to-leaf paths of
+the tree are exactly the label tuples of the cells. -/
+theorem from_records (cols : List Level) (recs : List (List Node)) (hc : cols.Nodup)
+    (hne : cols ≠ []) (hr : RecsOK cols recs) :
+    ((∃ t, fromRecords cols recs = .ok t) ↔ Nested cols recs) ∧
+    ∀ t, fromRecords cols recs = .ok t →
+      WF t ∧ t.hierarchy = cols ∧
+      (∀ j (hj : j < cols.length) p,
+        p ∈ t.nodesAt cols[j] ↔ ∃ r, r ∈ recs ∧ r[j]? = some p) ∧
+      (∀ j (hj : j + 1 < cols.length) p c,
+        (p ∈ t.nodesAt (cols[j]'(by omega)) ∧ c ∈ t.entry (cols[j]'(by omega)) p) ↔
+          ∃ r, r ∈ recs ∧ r[j]? = some p ∧ r[j+1]? = some c) ∧
+      (∀ leaf i, (leaf ∈ t.nodesAt (cols.getLast hne) ∧ i ∈ t.entry (cols.getLast hne) leaf) ↔
+          ∃ r, recs[i]? = some r ∧ r.getLast? = some leaf) ∧
+      (∀ ns, IsPath t ns ↔ ns ∈ recs) := by
+  have hd := fromRecordsRaw_dictOK hc recs
+  have hiff : (fromRecordsRaw cols recs).validate = .ok () ↔ Nested cols recs := by
+    rw [validate_ok_iff (t := fromRecordsRaw cols recs) hc]
+    rw [fromRecordsRaw_strict_iff hc hr]
+    exact ⟨fun h => h.1, fun h => ⟨h, hne⟩⟩
+  have hok : ∀ t, fromRecords cols recs = .ok t →
+      t = fromRecordsRaw cols recs ∧ (fromRecordsRaw cols recs).validate = .ok () := by
+    intro t ht
+    simp only [fromRecords] at ht
+    split at ht
+    · cases ht
+    · rename_i hv
+      cases ht
+      exact ⟨rfl, hv⟩
+  refine ⟨⟨fun ⟨t, ht⟩ => hiff.1 (hok t ht).2, fun hn => ?_⟩, fun t ht => ?_⟩
+  · refine ⟨fromRecordsRaw cols recs, ?_⟩
+    simp only [fromRecords, hiff.2 hn]
+  · obtain ⟨rfl, hv⟩ := hok t ht
+    have hn := hiff.1 hv
+    refine ⟨⟨hv, hc, hne, hd⟩, rfl, fun j hj p => fromRecordsRaw_nodes hc hr j hj p,
+      fun j hj p c => ?_, fun leaf i => ?_, fun ns => fromRecordsRaw_paths hc hne hr hn ns⟩
+    · rw [← isChild_iff hd]
+      exact fromRecordsRaw_children hc hr j hj p c
+    · rw [← isChild_iff hd]
+      exact fromRecordsRaw_rows hc hne hr leaf i
+
+example : fromRecords [0, 1] [[10, 20], [10, 21], [11, 22], [10, 20]] =
+    .ok ⟨true, [0, 1],
+          [(0, [(10, [20, 21]), (11, [22])]), (1, [(20, [0, 3]), (21, [1]), (22, [2])])], true⟩ ∧
+    fromRecords [0, 1] [[10, 20], [11, 20]] = .error .twoParents := by decide
+
 end CTM.C10
